@@ -292,7 +292,13 @@ impl IndexFooter {
     /// Validate footer integrity using MD5
     pub fn is_valid(&self) -> bool {
         let expected = self.calculate_footer_hash();
-        let actual_len = self.footer_hash.len().min(self.footer_hash_bytes as usize);
+        // footer_hash_bytes comes from the (corruptible) footer itself: never slice
+        // past what the hash provides (validate_format rejects lengths other than 8)
+        let actual_len = self
+            .footer_hash
+            .len()
+            .min(self.footer_hash_bytes as usize)
+            .min(expected.len());
         self.footer_hash[..actual_len] == expected[..actual_len]
     }
 
